@@ -48,6 +48,8 @@ def plan(tier, seed):
             if n <= 4 or tier == "thorough":
                 # a child repeats the name of its package (r.r, r.ra, r.r.r); level-limited and implicit-ancestor architectures
                 shards.append({"tree": t, "naming": "selfprefix", "k": 2, "bound": f"trees<={n_max} alias keys<=2 naming=selfprefix"})
+                if tier == "quick":
+                    shards.append({"tree": t, "naming": "unicode", "k": 2, "bound": f"trees<={n_max} alias keys<=2 naming=unicode"})
                 if n >= 3:
                     for variant in ("limit1", "implicit"):
                         shards.append({"tree": t, "naming": "identity", "k": 2, "variant": variant, "bound": f"trees<={n_max} alias keys<=2 variant={variant}"})
